@@ -174,6 +174,13 @@ def run(tier, seed):
     events, _ = conf.run("std256-part2", "std256", "sig2", ["drv_sig2.c"], cases2, SPEC2, wraps=WRAPS2, nontrivial=nontrivial2,
                          min_per_shard=10, tlc_timeout=3000, driver_timeout=1800, heap="2g")
     _count(ev, "std256-part2", events)
+    # the same verifiers once more with the AddressSanitizer build on the inputs that stress buffer sizing (identity points
+    # have 1-byte encodings, empty strings, thresholds above the ring size, every shape of the homomorphic verifiers): an
+    # abnormal end of a verification is an event of its own (or the crash field of a call that the driver runs in a child)
+    cases3 = gen_sig2.memory_cases(cases2)
+    events, _ = conf.run("std256-asan-part2", "std256-asan", "sig2", ["drv_sig2.c"], cases3, SPEC2, wraps=WRAPS2, nontrivial=nontrivial2,
+                         min_per_shard=10, tlc_timeout=3000, driver_timeout=1800, heap="2g", max_restarts=100)
+    _count(ev, "std256-asan-part2", events)
     return conf.finish()
 
 
